@@ -170,15 +170,24 @@ theorem peerid_roundtrip (p : Mh) (h : validPeerId p = true) (hd : ∀ b ∈ p.d
 
 /-! ## the executable Spec accepts the model -/
 
-theorem specFromBytes_model (bs : List Nat) (hb : ∀ b ∈ bs, b < 256) :
+/-- The strict Spec accepts the model on every input EXCEPT the over-long-varint class
+(`isOverlong`, the known finding `overlong_varint_accepted`); `peerid_accepts_canonical` shows that
+class is the only exception, so the hypothesis excludes nothing else. -/
+theorem specFromBytes_model_partial (bs : List Nat) (hb : ∀ b ∈ bs, b < 256)
+    (hno : isOverlong bs (fromBytes bs) = false) :
     specFromBytes bs (fromBytes bs) = true := by
   unfold specFromBytes
+  unfold isOverlong at hno
   cases h : fromBytes bs with
   | ok p =>
     have h1 := peerid_accepts_only bs p h
     rcases peerid_accepts_canonical bs hb p h with h2 | h2
     · simp [h1, h2]
-    · simp [h1, h2]
+    · rw [h] at hno
+      simp only [h1, Bool.true_and, Bool.and_eq_false_iff, bne_eq_false_iff_eq, decide_eq_false_iff_not] at hno
+      rcases hno with hno | hno
+      · simp [h1, hno]
+      · exact absurd h2 hno
   | error e =>
     match bs with
     | [] => rfl
@@ -206,8 +215,17 @@ example : fromBytes [0x12, 2, 7, 9] = .ok ⟨0x12, [7, 9]⟩ := by decide
 example : fromBytes [0x00, 1, 7] = .ok ⟨0, [7]⟩ := by decide
 example : fromBytes [0x13, 1, 7] = .error (.unsupportedCode 0x13) := by decide
 example : fromBytes [0x12, 2, 7] = .error .invalidMultihash := by decide
-/-- the truncation: a 10-byte varint whose high bits are dropped decodes to code 0x12 -/
+/-- the truncation: a 10-byte varint whose high bits are dropped decodes to code 0x12; the strict
+Spec rejects it and classifies it as over-long (the known finding) -/
 example : fromBytes [0x92, 0x80, 0x80, 0x80, 0x80, 0x80, 0x80, 0x80, 0x80, 0x02, 1, 7] = .ok ⟨0x12, [7]⟩ := by decide
+theorem overlong_counterexample :
+    let bs := [0x92, 0x80, 0x80, 0x80, 0x80, 0x80, 0x80, 0x80, 0x80, 0x02, 1, 7]
+    specFromBytes bs (fromBytes bs) = false ∧ isOverlong bs (fromBytes bs) = true := by
+  have h : fromBytes [0x92, 0x80, 0x80, 0x80, 0x80, 0x80, 0x80, 0x80, 0x80, 0x02, 1, 7] = .ok ⟨0x12, [7]⟩ := by decide
+  have hv : validPeerId ⟨0x12, [7]⟩ = true := by decide
+  have ht := toBytes_valid ⟨0x12, [7]⟩ hv
+  simp only [specFromBytes, isOverlong, h, hv, ht]
+  decide
 example : b58decode (b58encode [0, 0, 1]) = some [0, 0, 1] := base58_roundtrip _ (by decide)
 example : decodeKeyMsg (encodeKeyMsg 1 [1, 2, 3]) = some ⟨1, [1, 2, 3]⟩ := keymsg_roundtrip 1 (by decide) _ (by decide)
 
@@ -223,5 +241,6 @@ end C20
 #print axioms C20.keymsg_roundtrip
 #print axioms C20.key_proto_roundtrip
 #print axioms C20.decode_total
-#print axioms C20.specFromBytes_model
+#print axioms C20.specFromBytes_model_partial
+#print axioms C20.overlong_counterexample
 #print axioms C20.specRoundTrip_model
